@@ -433,6 +433,18 @@ class Run:
             return True
         return False
 
+    def _fresh_node(self, i, cache):
+        """Fresh copy of the sub-DAG rooted at table node i.  Sharing *inside* the copied object is
+        preserved (within one replica construction every table node maps to one fresh object), so the
+        copy differs from the live object only by having no history and no sharing with live objects."""
+        key = ("node", i)
+        obj = cache.get(key)
+        if obj is None:
+            node = self.world.nodes[i]
+            obj = S.node_construct(node, [self._fresh_node(k, cache) for k in node.get("kids", ())])
+            cache[key] = obj
+        return obj
+
     def replica(self, name, cache, mode="recipe"):
         """Fresh, never-used copy of a pooled object.
         mode "recipe": re-derive from the recorded provenance (C09);
@@ -442,9 +454,9 @@ class Run:
         w = self.world
         typ = w.types[name]
         if mode == "snapshot" and typ == E:
-            obj = S.build_tree(self.snap[name]["tree"])
+            obj = S.build_table(*self.snap[name]["table"])
         elif name[0] == "n":
-            obj = S.build_tree(w.node_tree(int(name[1:])))
+            obj = self._fresh_node(int(name[1:]), cache)
         elif name in self._fresh_tree:
             # an expression is fully described by its tree: re-deriving it from fresh copies once
             # (history-free by construction) and rebuilding that tree is the same fresh object, cheaper
@@ -582,6 +594,7 @@ class Run:
         snap = {"type": typ, "repr": repr(obj)}
         if typ == E:
             snap["tree"] = S.tree_of(obj)
+            snap["table"] = S.table_of(obj)      # structure *with* its internal sharing, for twins
         else:
             orig = getattr(obj, "_original_expression", None)
             snap["otree"] = S.tree_of(orig) if orig is not None else None
@@ -633,7 +646,7 @@ class Run:
             obj = w.objs[name]
             typ = snap["type"]
             if typ == E:
-                twin = S.build_tree(snap["tree"])
+                twin = S.build_table(*snap["table"])
             else:
                 try:
                     twin = self.replica(name, {}, mode="snapshot")
